@@ -61,7 +61,7 @@ func (c *shippedCase) files() map[string]string {
 			if (i+len(t.Name)+len(ts))%3 == 0 {
 				// a doc line that still opens with the name once the name has been taken off (`Status Status of the order`, as
 				// generators of API types write them)
-				fmt.Fprintf(&b, "// %s %s of package a%d.\n", t.Name, t.Name, i)
+				fmt.Fprintf(&b, "// %s %s %s of package a%d.\n", t.Name, t.Name, t.Name, i)
 			} else {
 				fmt.Fprintf(&b, "// %s of package a%d.\n", t.Name, i)
 			}
